@@ -1,9 +1,10 @@
 /-
   C12 for the Go SOURCE TEXT: `complementByte`, `ReverseComplement` and `CanonicalSubsequences` of
   sequtil/sequtil.go, as translated on every run into `Bio.Generated.GoSrc`, compute the hand-written
-  models `comp`, `revComp`, `canonicalLog` of `Bio.Model.Sequtil` on the complement table observed
-  from the running Go code — for every input, every `k` and every consumer (`yield`) function,
-  panics (`none`) included.  Guarded by the translator's `<f>_Found` flags (see `Bio.Lemmas.GoSrc`).
+  models `comp`, `revComp`, `canonical`/`canonicalLog` of `Bio.Model.Sequtil` on the complement table
+  observed from the running Go code — for every input, every `k` and every deterministic consumer
+  (`yield`) of the iterator, stateful ones included, panics (`none`) included.
+  Guarded by the translator's `<f>_Found` flags (see `Bio.Lemmas.GoSrc`).
 -/
 import Bio.Lemmas.GoSrc
 import Bio.Generated.Tables
@@ -32,21 +33,50 @@ example : allFound = false ∨ (GoSrc.ReverseComplement_Found = true ∧ GoSrc.c
 example : allFound = false ∨ (GoSrc.ReverseComplement Generated.compTable [7] [65, 65, 99, 78] = some [7, 78, 103, 84, 84]
     ∧ GoSrc.ReverseComplement Generated.compTable [] [65, 88] = none) := by decide
 
-/-- The log of items handed to the consumer `f` (which may stop the iteration by returning `false`)
-is the model's, for every `k : Nat` (`k = 0` and `k > len(seq) + 1` included). -/
-theorem go_CanonicalSubsequences : GoSrc.CanonicalSubsequences_Found = true →
+/-- ANY deterministic consumer, stateful ones included (`h` is asked about the whole log of items
+handed to it so far, the current one last, and may stop the iteration by answering `false`): the log
+is the model's list of canonical k-mers cut after the first item at which `h` says stop — for every
+`k : Nat` (`k = 0` and `k > len(seq) + 1` included); `none` = panic. -/
+theorem go_CanonicalSubsequences_stateful : GoSrc.CanonicalSubsequences_Found = true →
     GoSrc.ReverseComplement_Found = true → GoSrc.complementByte_Found = true →
-    ∀ (f : Bytes → Bool) (seq : Bytes) (k : Nat),
-      GoSrc.CanonicalSubsequences Generated.compTable seq (k : Int) f
-        = Sequtil.canonicalLog Generated.compTable f seq k :=
-  fun hF hR hC f seq k => CanonicalSubsequences_eq hF hR hC Generated.compTable f seq k
+    ∀ (h : List Bytes → Bool) (seq : Bytes) (k : Nat),
+      GoSrc.CanonicalSubsequences Generated.compTable seq (k : Int) h
+        = (Sequtil.canonical Generated.compTable seq k).map (GoRt.takeThroughH h []) :=
+  fun hF hR hC h seq k => CanonicalSubsequences_hist hF hR hC Generated.compTable h seq k
 
 example : allFound = false ∨ (GoSrc.CanonicalSubsequences_Found = true ∧ GoSrc.ReverseComplement_Found = true
     ∧ GoSrc.complementByte_Found = true) := by decide
+-- AAAA, k = 2: the three canonical k-mers are all AA.  A consumer that stops at its second item sees
+-- [AA, AA]; no pure consumer can stop at the second item but not at the (identical) first.
+example : allFound = false ∨ (GoSrc.CanonicalSubsequences Generated.compTable [65, 65, 65, 65] 2 (fun l => l.length < 2)
+      = some [[65, 65], [65, 65]]
+    ∧ GoSrc.CanonicalSubsequences Generated.compTable [65, 65, 65, 65] 2 (fun _ => true)
+      = some [[65, 65], [65, 65], [65, 65]]) := by decide
+
+example : ∀ f : Bytes → Bool,
+    Sequtil.canonicalLog Generated.compTable f [65, 65, 65, 65] 2 ≠ some [[65, 65], [65, 65]] := by
+  intro f
+  have e : Sequtil.canonicalLog Generated.compTable f [65, 65, 65, 65] 2
+      = some ([65, 65] :: (if f [65, 65] then [65, 65] :: (if f [65, 65] then [65, 65] ::
+          (if f [65, 65] then [] else []) else []) else [])) := rfl
+  rw [e]
+  cases f [65, 65] <;> decide
+
+/-- Pure consumers `f` (asked about the current item only): the model's `canonicalLog`. -/
+theorem go_CanonicalSubsequences : GoSrc.CanonicalSubsequences_Found = true →
+    GoSrc.ReverseComplement_Found = true → GoSrc.complementByte_Found = true →
+    ∀ (f : Bytes → Bool) (seq : Bytes) (k : Nat),
+      GoSrc.CanonicalSubsequences Generated.compTable seq (k : Int)
+          (fun l => match l.getLast? with | some x => f x | none => true)
+        = Sequtil.canonicalLog Generated.compTable f seq k :=
+  fun hF hR hC f seq k => CanonicalSubsequences_eq hF hR hC Generated.compTable f seq k
+
 -- AAGT, k = 2: AA|TT -> AA, AG|CT -> AG, GT|AC -> AC; a consumer that stops at AG sees two items
-example : allFound = false ∨ (GoSrc.CanonicalSubsequences Generated.compTable [65, 65, 71, 84] 2 (fun _ => true)
+example : allFound = false ∨ (GoSrc.CanonicalSubsequences Generated.compTable [65, 65, 71, 84] 2
+        (fun l => match l.getLast? with | some x => (fun _ => true) x | none => true)
       = some [[65, 65], [65, 71], [65, 67]]
-    ∧ GoSrc.CanonicalSubsequences Generated.compTable [65, 65, 71, 84] 2 (fun x => x != [65, 71])
+    ∧ GoSrc.CanonicalSubsequences Generated.compTable [65, 65, 71, 84] 2
+        (fun l => match l.getLast? with | some x => (fun x => x != [65, 71]) x | none => true)
       = some [[65, 65], [65, 71]]
     ∧ GoSrc.CanonicalSubsequences Generated.compTable [65, 65, 71, 84] 9 (fun _ => true) = some []
     ∧ GoSrc.CanonicalSubsequences Generated.compTable [65, 88] 1 (fun _ => true) = none) := by decide
